@@ -252,7 +252,9 @@ impl<const M: usize> Sim<M> {
                 self.st(St::RewindSame);
             }
             self.observe(OpKind::Alloc);
-            if behaviour == 0 {
+            // (only every other time: the probe itself occupies the slot again, and histories in which the
+            // failed slot stays empty - e.g. a reset right after it - must be reachable too)
+            if behaviour == 0 && op.a & 0x80 == 0 {
                 // the reserved space must be reusable: same layout, no global-allocator traffic
                 let pre2 = self.pre(Some(rl), true);
                 let r = self.call(|b| b.try_alloc_layout(rl).ok().map(|p| p.as_ptr() as usize));
@@ -606,14 +608,16 @@ impl<const M: usize> Sim<M> {
                 self.st(St::RewindSame);
             }
             self.observe(OpKind::Alloc);
-            let pre2 = self.pre(Some(l), true);
-            let r = self.call(|b| b.try_alloc_layout(l).ok().map(|p| p.as_ptr() as usize));
-            let (o2, p2) = self.post_call(OpKind::Alloc, "request of the same layout after a failed slice fill", r, pre2);
-            if o2 != OUT_OK || !self.step_events.is_empty() {
-                self.v("C11", format!("{what}(len {len}, failing at {fail_at}): the space reserved for the failed slice (size {}, align {}) was not reusable by the next request of the same layout", l.size(), l.align()));
-            }
-            if let Some(p2) = p2 {
-                self.register("reuse after failed slice fill", p2, l.size(), l.align(), true, None);
+            if op.a & 0x80 == 0 {
+                let pre2 = self.pre(Some(l), true);
+                let r = self.call(|b| b.try_alloc_layout(l).ok().map(|p| p.as_ptr() as usize));
+                let (o2, p2) = self.post_call(OpKind::Alloc, "request of the same layout after a failed slice fill", r, pre2);
+                if o2 != OUT_OK || !self.step_events.is_empty() {
+                    self.v("C11", format!("{what}(len {len}, failing at {fail_at}): the space reserved for the failed slice (size {}, align {}) was not reusable by the next request of the same layout", l.size(), l.align()));
+                }
+                if let Some(p2) = p2 {
+                    self.register("reuse after failed slice fill", p2, l.size(), l.align(), true, None);
+                }
             }
         } else if let Some(p) = p {
             ptr = p;
